@@ -1,21 +1,42 @@
 package bastion
 
-// Replay for parseBody's obligation "an accepted body has a well-formed old-size line" (C11.w) on the REAL code.
-// The solver's countermodel only says that fmt.Sscanf(line, "old %d") may succeed on a line that is not
-// "old <decimal uint64>" (its contract promises nothing else); this test looks for such lines concretely.
+// Replay for parseBody's obligations (C11) on the REAL code.  The solver's countermodels speak about uninterpreted
+// renderings (encodings, lines), so the replay evaluates the contract's clauses in executable form over a matrix
+// of concrete requests instead of one model: round trip (C11.rt), zero values on refusal (C11.z), well-formed
+// old-size line (C11.w), a non-base64 proof line is refused (C11.b), truncated input is refused (C11.t, C11.e).
 // Injected with `go test -overlay`; never written into /repo.  Output: one line `REPLAY-RESULT {json}`.
 
 import (
 	"bytes"
+	"encoding/base64"
 	"encoding/json"
+	"errors"
+	"fmt"
 	"os"
 	"regexp"
 	"testing"
 )
 
+type vrErrReader struct{ data []byte }
+
+func (r *vrErrReader) Read(p []byte) (int, error) {
+	if len(r.data) == 0 {
+		return 0, errors.New("replay: connection reset")
+	}
+	n := copy(p, r.data)
+	r.data = r.data[n:]
+	return n, nil
+}
+
 func TestVerifReplayParseBody(t *testing.T) {
 	if os.Getenv("VERIF_REPLAY_MODEL") == "" {
 		t.Skip("no model")
+	}
+	failed := map[string]string{}
+	fail := func(tag, why string) {
+		if _, dup := failed[tag]; !dup {
+			failed[tag] = why
+		}
 	}
 	wellFormed := regexp.MustCompile(`^old [0-9]+$`)
 	cp := "example.com/log\n1\nAAAAAAAAAAAAAAAAAAAAAAAAAAAAAAAAAAAAAAAAAAA=\n"
@@ -29,10 +50,75 @@ func TestVerifReplayParseBody(t *testing.T) {
 			accepted[line] = size
 		}
 	}
-	failed := map[string]string{}
 	if len(accepted) > 0 {
 		js, _ := json.Marshal(accepted)
-		failed["C11.w"] = "malformed old-size lines accepted (line -> parsed size): " + string(js)
+		fail("C11.w", "malformed old-size lines accepted (line -> parsed size): "+string(js))
+	}
+
+	// round trip and refusals over a matrix of requests
+	hashes := func(k int) [][]byte {
+		var hs [][]byte
+		for i := 0; i < k; i++ {
+			h := bytes.Repeat([]byte{byte(0xf8 + i)}, 1+(i*7)%64) // bytes that need '+' and '/' in the standard alphabet
+			hs = append(hs, h)
+		}
+		return hs
+	}
+	encode := func(n uint64, hs [][]byte) string {
+		s := fmt.Sprintf("old %d\n", n)
+		for _, h := range hs {
+			s += base64.StdEncoding.EncodeToString(h) + "\n"
+		}
+		return s
+	}
+	cps := []string{cp, "", "\n\nblank lines\n\n", string([]byte{0xff, 0xfe, '\n', 0x80})}
+	for _, n := range []uint64{0, 1, 5, 1<<63 + 1, 1<<64 - 1} {
+		for _, k := range []int{0, 1, 2, 7, 64} {
+			hs := hashes(k)
+			for _, c := range cps {
+				body := encode(n, hs) + "\n" + c
+				size, proof, got, err := parseBody(bytes.NewBufferString(body))
+				ok := err == nil && size == n && len(proof) == k && bytes.Equal(got, []byte(c))
+				for i := 0; ok && i < k; i++ {
+					ok = bytes.Equal(proof[i], hs[i])
+				}
+				if !ok {
+					fail("C11.rt", fmt.Sprintf("old %d, %d hashes, checkpoint %q: parsed (%d, %d hashes, %q, %v)", n, k, c, size, len(proof), got, err))
+				}
+				if err == nil && got == nil {
+					fail("C11.z", "accepted with a nil checkpoint")
+				}
+			}
+			refused := func(tag, what, body string) {
+				size, proof, got, err := parseBody(bytes.NewBufferString(body))
+				if err == nil {
+					fail(tag, fmt.Sprintf("%s accepted: old %d with %d hashes -> (%d, %d hashes, %q)", what, n, k, size, len(proof), got))
+				} else if size != 0 || proof != nil || got != nil {
+					fail("C11.z", fmt.Sprintf("%s refused but partly understood: (%d, %v, %q, %v)", what, size, proof, got, err))
+				}
+			}
+			for _, bad := range []string{"!!!!", "AAA", "AA=A", "YWJj ZA==", "_-_-"} {
+				refused("C11.b", fmt.Sprintf("body with the non-base64 proof line %q after %d good lines", bad, k), encode(n, hs)+bad+"\n\n"+cp)
+			}
+			refused("C11.t", "body that ends after the proof lines (no blank separator)", encode(n, hs))
+			refused("C11.t", "body that ends inside a proof line", encode(n, hs)+"AAAA")
+		}
+	}
+	// a reader that fails with an I/O error after i bytes: whatever is returned with an error must be the zero values
+	full := encode(7, hashes(3)) + "\n" + cp
+	for i := 0; i <= len(full); i++ {
+		size, proof, got, err := parseBody(&vrErrReader{data: []byte(full[:i])})
+		if err != nil && (size != 0 || proof != nil || got != nil) {
+			fail("C11.z", fmt.Sprintf("I/O error after %d of %d bytes: refused but partly understood: (%d, %d hashes, %q, %v)", i, len(full), size, len(proof), got, err))
+		}
+		if err == nil && i < len(full) {
+			fail("C11.z", fmt.Sprintf("I/O error after %d of %d bytes swallowed: accepted (%d, %d hashes, %q)", i, len(full), size, len(proof), got))
+		}
+	}
+	for _, e := range []string{""} {
+		if _, _, _, err := parseBody(bytes.NewBufferString(e)); err == nil {
+			fail("C11.e", "empty input accepted")
+		}
 	}
 	out, _ := json.Marshal(map[string]interface{}{"realisable": true, "accepted_malformed": accepted, "failed_clauses": failed})
 	t.Logf("REPLAY-RESULT %s", out)
